@@ -213,8 +213,12 @@ def toml_of(c):
     s = ""
     if "max" in c:
         s += "[complexity]\nmax_complexity = %d\n" % c["max"]
-    if "min" in c:
-        s += "[output]\nmin_complexity = %d\n" % c["min"]
+    if "min" in c or "sort" in c:
+        # presentation keys (sort order, details) must not change the verdict of the gate
+        s += "[output]\n" + ("min_complexity = %d\n" % c["min"] if "min" in c else "") + \
+             ("sort_by = \"%s\"\nshow_details = true\n" % c["sort"] if "sort" in c else "")
+        if "sort" in c:
+            s += "[dead_code]\nsort_by = \"%s\"\nshow_context = true\n" % {"name": "function", "risk": "file"}.get(c["sort"], "line")
     if "sev" in c:
         s += "[dead_code]\nmin_severity = \"%s\"\n" % c["sev"]
     return s or "# empty\n"
@@ -502,6 +506,9 @@ LIST_PROFILES = [
     dict(select=["complexity", "deadcode"], quiet=True),
     dict(select=["complexity"], cfg={"max": LIST_BAD_CX}, cfg_at="root"),
     dict(select=["complexity"], cfg={"max": LIST_BAD_CX}, cfg_at="da"),
+    dict(select=["complexity", "deadcode"], cfg={"max": LIST_BAD_CX - 1, "sort": "name"}, cfg_at="root"),
+    dict(select=["complexity"], cfg={"sort": "name"}, cfg_at="root"),
+    dict(select=["complexity", "deadcode"], cfg={"sort": "risk"}, cfg_at="root"),
     dict(select=["complexity", "deadcode", "clones"], cfg={"max": LIST_BAD_CX - 1}, cfg_at="root", allow_dead=True),
 ]
 
